@@ -2,6 +2,7 @@ package main
 
 import (
 	"fmt"
+	"time"
 
 	fpgo "github.com/TeaEntityLab/fpGo/v2"
 	"github.com/TeaEntityLab/fpGo/v2/zzverif/vsched"
@@ -32,10 +33,20 @@ func reqX(c, j int) int { return (c+1)*100 + j }
 // pairScenario: `callers` coroutines issue `reqs` YieldFrom calls each against one target that
 // serves all of them.
 func pairScenario(shape string, callers, reqs int, targetFirst bool, bound int, delay bool) *vsched.Scenario {
+	return pairScenarioX(shape, callers, reqs, targetFirst, false, bound, delay)
+}
+
+// late: the target is started only after every caller has issued its first request (the callers are all queued
+// or parked on the request buffer by then: the driver sleeps, and virtual time advances at quiescence only).
+func pairScenarioX(shape string, callers, reqs int, targetFirst, late bool, bound int, delay bool) *vsched.Scenario {
 	fam := "pairing-" + shape
 	total := callers * reqs
+	name := fmt.Sprintf("pairing/%s/callers%d/reqs%d/targetFirst=%v", shape, callers, reqs, targetFirst)
+	if late {
+		name += "/started-after-all-requests-are-queued"
+	}
 	return &vsched.Scenario{
-		Name:  fmt.Sprintf("pairing/%s/callers%d/reqs%d/targetFirst=%v", shape, callers, reqs, targetFirst),
+		Name:  name,
 		Bound: bound,
 		Delay: delay,
 		Body: func() {
@@ -65,7 +76,12 @@ func pairScenario(shape string, callers, reqs int, targetFirst bool, bound int, 
 				me.Start()
 			}
 			if !targetFirst {
+				if late {
+					time.Sleep(time.Millisecond)
+					vsched.Event("starting-late")
+				}
 				target.Start()
+				vsched.Event("start-returned")
 			}
 			vsched.GoNamed("observer", func() {
 				// IsDone becomes true once the effect has returned (sampled a few times, then at the end by the oracle)
@@ -351,6 +367,48 @@ func ctorScenario(bound int) *vsched.Scenario {
 // payloadScenario: the values exchanged are opaque to the coroutine: the initial value given to StartWithVal
 // (here nil / a typed nil pointer) reaches the first YieldRef, the x of every request and the y of every
 // answer arrive as the very values that were passed (pointer identity, nil-ness, sign of zero).
+// ioPayloadScenario: YieldFromIO returns the IO's value whatever it is - the payload table (nil, typed nil
+// pointers, zero values, an error value ...) through MonadIO.Just / New, with and without an observe handler.
+func ioPayloadScenario(observe bool, bound int) *vsched.Scenario {
+	fam := "yield-from-io-payload"
+	pay := lib.Payloads()
+	return &vsched.Scenario{
+		Name:  fmt.Sprintf("yield-from-io/payload/observeOn-handler=%v", observe),
+		Bound: bound,
+		Body: func() {
+			h := fpgo.Handler.NewByCh(make(chan func(), 1))
+			var caller *fpgo.CorDef[interface{}]
+			caller = fpgo.CorNewGenerics[interface{}](func() {
+				for j, v := range pay {
+					v := v
+					io := fpgo.MonadIO.Just(v)
+					if j%2 == 1 {
+						io = fpgo.MonadIO.New(func() interface{} { return v })
+					}
+					if observe {
+						io.ObserveOn(h)
+					}
+					vsched.Note("io-value", j, lib.Show(caller.YieldFromIO(io)))
+				}
+			})
+			caller.Start()
+		},
+		Check: func(r *vsched.Result) []vsched.Failure {
+			fs := e1.Basic("C14", fam, r, nil)
+			if len(fs) > 0 {
+				return fs
+			}
+			for j, v := range pay {
+				if e1.Count(r, "io-value", j, lib.Show(v)) != 1 {
+					fs = append(fs, e1.Fail("C14|"+fam+"|value", "YieldFromIO of an IO whose value is %s did not return it: %v", lib.Show(v), r.Events))
+					break
+				}
+			}
+			return fs
+		},
+	}
+}
+
 func payloadScenario(initial interface{}, bound int) *vsched.Scenario {
 	fam := "payload"
 	pay := lib.Payloads()
@@ -421,7 +479,8 @@ func scenarios(tier string) []*vsched.Scenario {
 		pairScenario("fixed", 2, 2, true, 3, true),   // delay bounding: the pre-emption-bounded space of 2x2 requests is large
 		pairScenario("echo", 3, 1, false, 3, true),
 		pairScenario("fixed", 7, 1, false, 1, true), // 7 pending requests at once (> buffer): delay bounding
-		startWithValScenario(false, b), startWithValScenario(true, b), doNotationScenario(b), ioOnHandlerScenario(true, b), ioOnHandlerScenario(false, b), ctorScenario(1), payloadScenario(nil, 0), payloadScenario((*int)(nil), 0), payloadScenario(0, 0))
+		pairScenarioX("fixed", 7, 1, false, true, 1, true), pairScenarioX("echo", 6, 1, false, true, 1, true), pairScenarioX("fixed", 2, 1, false, true, 1, true),
+		startWithValScenario(false, b), startWithValScenario(true, b), doNotationScenario(b), ioPayloadScenario(false, 0), ioPayloadScenario(true, 0), ioOnHandlerScenario(true, b), ioOnHandlerScenario(false, b), ctorScenario(1), payloadScenario(nil, 0), payloadScenario((*int)(nil), 0), payloadScenario(0, 0))
 	if tier == "thorough" {
 		out = append(out, pairScenario("accumulate", 2, 2, false, 1, false), pairScenario("fixed", 2, 2, true, 1, false), pairScenario("echo", 3, 1, false, 1, false), pairScenario("fixed", 3, 2, true, 3, true),
 			pairScenario("echo", 4, 1, false, 2, false), pairScenario("fixed", 8, 1, false, 2, true), pairScenario("accumulate", 7, 1, true, 2, true))
